@@ -88,7 +88,7 @@ def _agree(raw, case, x, y, wref, viol):
         w = wref(L, cfg["psll"])
         Sx = tol.seg_scale(x, D, L, w, cfg["order"])
         Sy = tol.seg_scale(y, D, L, w, cfg["order"])
-        bxy = tol.budget2(L, om, (Sx * Sy) ** 0.5)
+        bxy = tol.budget2(L, om, (Sx ** 0.5 * Sy ** 0.5))
         if not abs(complex(a.XY[j]) - complex(b.XY[j])) <= 4 * bxy:
             viol.append(V("backends_disagree", a=bes[0], b=bes[1], XYa=complex(a.XY[j]), XYb=complex(b.XY[j]), bin=int(j),
                           budget=4 * bxy))
